@@ -432,6 +432,7 @@ type bsum struct {
 	resStr []int   // per result (string results): slen, bInf unknown
 	cell   map[int]bfact
 	cdel   map[int]int // *int parameter j grows by at least cdel[j] (absent: unknown)
+	resGe  map[int]int // int result k is, on every return, the int parameter resGe[k] plus a non-negative constant
 	when   [2]map[int]*bimpl // [0]=false, [1]=true; per bool result index
 }
 
@@ -1724,6 +1725,20 @@ func (e *bndEngine) transfer(f *ssa.Function, b *ssa.BasicBlock, st *bstate, pos
 						if isIntType(x.Type()) && s.res[x.Index] != bTop {
 							st.val[x] = s.res[x.Index]
 						}
+						if j, ok := s.resGe[x.Index]; ok && isIntType(x.Type()) && j < len(call.Call.Args) {
+							// result >= argument j: the argument's lower bound carries over
+							af := e.eval(call.Call.Args[j], st, 0)
+							if af.lb > -bInf {
+								cur, has := st.val[x]
+								if !has {
+									cur = bTop
+								}
+								if af.lb > cur.lb {
+									cur.lb = af.lb
+								}
+								st.val[x] = cur
+							}
+						}
 						if isStringType(x.Type()) && s.resStr[x.Index] < bInf {
 							st.slen[x] = s.resStr[x.Index]
 						}
@@ -1762,8 +1777,26 @@ func (e *bndEngine) transfer(f *ssa.Function, b *ssa.BasicBlock, st *bstate, pos
 			if isCell(x.Addr) {
 				nf := e.eval(x.Val, st, 0)
 				// *cell = (old *cell) + c moves every relation to the cell by c; any other store voids them
+				grew, by := false, 0
 				if base, c := plusConst(x.Val); st.alias[base] == x.Addr {
-					e.cellMoved(x.Addr, c, true, st)
+					grew, by = true, c
+				} else if ex, ok := x.Val.(*ssa.Extract); ok {
+					// *cell = offset returned by a callee that returns at least the offset it was given, called with the
+					// old *cell (+ c): afterEOL, ok := l.consumeEOL(*i); *i = afterEOL
+					if call, ok := ex.Tuple.(*ssa.Call); ok {
+						if g := call.Call.StaticCallee(); g != nil && e.inPkg[g] {
+							if sm := e.sum[g]; sm != nil && sm.set {
+								if j, ok := sm.resGe[ex.Index]; ok && j < len(call.Call.Args) {
+									if base, c := plusConst(call.Call.Args[j]); st.alias[base] == x.Addr && c >= 0 {
+										grew, by = true, c
+									}
+								}
+							}
+						}
+					}
+				}
+				if grew {
+					e.cellMoved(x.Addr, by, true, st)
 				} else {
 					e.cellMoved(x.Addr, 0, false, st)
 				}
@@ -2341,6 +2374,13 @@ func newBSum(f *ssa.Function) *bsum {
 	nres := f.Signature.Results().Len()
 	sum.res = make([]bfact, nres)
 	sum.resStr = make([]int, nres)
+	// "offset in, offset out" (consumeEOL(i int) (int, bool)): the value-returning twin of a growing *int parameter
+	sum.resGe = map[int]int{}
+	for k := 0; k < nres; k++ {
+		if j, ok := resultGeParam(f, k); ok {
+			sum.resGe[k] = j
+		}
+	}
 	return sum
 }
 
@@ -2527,4 +2567,66 @@ func eqPreMap(a, b map[*ssa.Function]*bpre) bool {
 		}
 	}
 	return true
+}
+
+
+// resultGeParam: on every return of f, int result k is one int parameter of f plus a non-negative constant (through
+// phis): the index of that parameter
+func resultGeParam(f *ssa.Function, k int) (int, bool) {
+	if f == nil || f.Blocks == nil || k >= f.Signature.Results().Len() || !isIntType(f.Signature.Results().At(k).Type()) {
+		return 0, false
+	}
+	var geParam func(v ssa.Value, p *ssa.Parameter, depth int, seen map[ssa.Value]bool) bool
+	geParam = func(v ssa.Value, p *ssa.Parameter, depth int, seen map[ssa.Value]bool) bool {
+		if v == ssa.Value(p) {
+			return true
+		}
+		if depth > 8 {
+			return false
+		}
+		if seen[v] {
+			return true // a loop-carried value that only comes back to itself adds nothing
+		}
+		seen[v] = true
+		switch x := v.(type) {
+		case *ssa.BinOp:
+			if x.Op == token.ADD {
+				if c, ok := x.Y.(*ssa.Const); ok && c.Value != nil && c.Value.Kind() == constant.Int && constant.Sign(c.Value) >= 0 {
+					return geParam(x.X, p, depth+1, seen)
+				}
+				if c, ok := x.X.(*ssa.Const); ok && c.Value != nil && c.Value.Kind() == constant.Int && constant.Sign(c.Value) >= 0 {
+					return geParam(x.Y, p, depth+1, seen)
+				}
+			}
+		case *ssa.Phi:
+			for _, e := range x.Edges {
+				if e == v {
+					continue
+				}
+				if !geParam(e, p, depth+1, seen) {
+					return false
+				}
+			}
+			return true
+		}
+		return false
+	}
+	for j, p := range f.Params {
+		if !isIntType(p.Type()) {
+			continue
+		}
+		all, n := true, 0
+		for _, b := range f.Blocks {
+			if ret, ok := b.Instrs[len(b.Instrs)-1].(*ssa.Return); ok && k < len(ret.Results) {
+				n++
+				if !geParam(ret.Results[k], p, 0, map[ssa.Value]bool{}) {
+					all = false
+				}
+			}
+		}
+		if all && n > 0 {
+			return j, true
+		}
+	}
+	return 0, false
 }
